@@ -1034,6 +1034,12 @@ func (e *Engine) appendOp(st *State, s, xs Val, sliceT types.Type) Val {
 			sa := strings.Replace(da, elemAt(addr, dstLo, q), elemAt(src.Base, src.Off, q), 1)
 			st.assume("(forall ((" + q + " Int)) (! (=> (and (<= 0 " + q + ") (< " + q + " " + n + ")) (= (select " + h + " " + da + ") (select " + h + " " + sa + "))) :pattern ((select " + h + " " + da + "))))")
 		})
+		// ghost state carried by value copies (bigval of embedded big.Int values)
+		e.ghostPaths(elemAt(addr, dstLo, q), et, func(da string, cg carriedGhost) {
+			h := st.heap(cg.heap)
+			sa := strings.Replace(da, elemAt(addr, dstLo, q), elemAt(src.Base, src.Off, q), 1)
+			st.assume("(forall ((" + q + " Int)) (! (=> (and (<= 0 " + q + ") (< " + q + " " + n + ")) (= (select " + h + " " + da + ") (select " + h + " " + sa + "))) :pattern ((select " + h + " " + da + "))))")
+		})
 	}
 	copyRange("0", s, s.Len)
 	copyRange(s.Len, xs, xs.Len)
@@ -1060,6 +1066,11 @@ func (e *Engine) assumeStored(st *State, addr string, v Val, t types.Type) {
 		s := structOf(t)
 		for i := 0; i < s.NumFields(); i++ {
 			e.assumeStored(st, "(fld "+addr+" "+intLit(int64(i))+")", v.F[i], s.Field(i).Type())
+		}
+		for j, cg := range e.carriedGhosts(t) {
+			if n := s.NumFields() + j; n < len(v.F) && v.F[n].T != "" {
+				st.assume("(= (select " + st.heap(cg.heap) + " " + addr + ") " + v.F[n].T + ")")
+			}
 		}
 	case KArr:
 		a := t.Underlying().(*types.Array)
